@@ -1790,10 +1790,8 @@ class SpaceUpdater(SharedSpaceOperations):
         for b in basenodes:
             self._graph.remove_edge(b, node)
 
-        self._instructions.append(
-            Instruction(self._update_derived_space, (node,))
-        )
-        for _, v in nx.edge_bfs(self.manager._graph, node):
+        # Update space and its sub spaces, bases before their subs
+        for v in self._graph.ordered_subs(node):
             self._instructions.append(
                 Instruction(self._update_derived_space, (v,))
             )
@@ -1814,15 +1812,19 @@ class SpaceUpdater(SharedSpaceOperations):
             nodes_removed.append(child)
             self._remove_hook(self._graph, child)
 
-        # Update the sub spaces of all the removed spaces but themselves
+        # Update the sub spaces of all the removed spaces but themselves,
+        # bases before their subs
+        subs = set()
         for n in nodes_removed:
-            for _, v in nx.edge_bfs(self.manager._graph, n):
-                if v not in nodes_removed:
-                    self._instructions.append(
-                        Instruction(self._update_derived_space, (v,))
-                    )
+            subs.update(nx.descendants(self._graph, n))
+        subs.difference_update(nodes_removed)
 
         self._graph.remove_nodes_from(nodes_removed)
+
+        for v in nx.topological_sort(self._graph.subgraph(subs)):
+            self._instructions.append(
+                Instruction(self._update_derived_space, (v,))
+            )
 
         self._instructions.execute()
         self._update_manager()
